@@ -214,4 +214,4 @@ def run(tier="quick", seed=0, arg=None):
             "rule": "markers parsed from the well-defined atom pool (%d atoms, both operand orders) and random and/or combinations (%d markers); pairs/triples "
                     "sampled with VERIF_SEED; every result evaluated on %d environments (python 2.7-4.0 patch levels x string pools x extra sets); "
                     "per-case time limit 10 s (timed-out cases are not evaluated); non-trivial = both operands neither constant true nor false on the grid" % (len(atoms()), len(pool), len(envs)),
-            "samples": samples, "failures": fails[:200], "n_failures": len(fails), "bound": f"{len(pool)} markers, {npairs} pairs, {len(envs)} environments"}
+            "samples": samples, "failures": fails[:3000], "n_failures": len(fails), "bound": f"{len(pool)} markers, {npairs} pairs, {len(envs)} environments"}
